@@ -162,6 +162,28 @@ func vpC12V1(k int, ntx int, size, cacheSize int, recheck bool, reap bool) {
 	for i := range got {
 		vp.Assert(bytes.Equal(got[i], all[i].tx), "C12.v1.reap-max-txs-is-a-prefix-of-the-order")
 	}
+	// gas-limited reap (transaction i wants gas i+1): the longest prefix of the order within a symbolic gas limit
+	mg := vp.Int64("reap-max-gas")
+	vp.Assume(mg >= -1)
+	vp.Assume(mg <= 7)
+	gotG := txmp.ReapMaxBytesMaxGas(-1, mg)
+	var tot int64
+	wantG := 0
+	for _, e := range all {
+		tot += e.gasWanted
+		if mg >= 0 {
+			if tot > mg {
+				break
+			}
+		}
+		wantG++
+	}
+	vp.Assert(len(gotG) == wantG, "C12.v1.reap-max-gas-is-the-longest-prefix-within-the-gas-limit")
+	for i := range gotG {
+		if i < len(all) {
+			vp.Assert(bytes.Equal(gotG[i], all[i].tx), "C12.v1.reap-max-gas-is-a-prefix-of-the-order")
+		}
+	}
 }
 
 func VP_C12_V1_k3()            { vpC12V1(3, 2, 2, 2, true, false) }
